@@ -53,7 +53,7 @@ func (g *sheetgen) w(s string) { g.src.WriteString(s) }
 // ws writes optional whitespace/comment and reports whether real whitespace was written
 func (g *sheetgen) ws(force bool) bool {
 	t := g.t
-	k := rapid.IntRange(0, 5).Draw(t, "ws")
+	k := rapid.IntRange(0, 7).Draw(t, "ws")
 	if force && k < 2 {
 		k = 2
 	}
@@ -68,6 +68,10 @@ func (g *sheetgen) ws(force bool) bool {
 		g.w(" /*c*/ ")
 	case 5:
 		g.w("/*c*/ ")
+	case 6:
+		g.w(" /*c*/") // the comment touches the token that follows
+	case 7:
+		g.w(rapid.SampledFrom([]string{"\n/*a*//*b*/", " /**//**/", "\t/* */"}).Draw(t, "wscomments"))
 	}
 	g.wsdec++
 	return true
@@ -83,8 +87,15 @@ func randCase(t *rapid.T, s string) string {
 	return string(b)
 }
 
+// lower: names are compared without regard to ASCII case only (CSS Syntax: "ASCII case-insensitive")
 func lower(s string) string {
-	return string(bytes.ToLower([]byte(s)))
+	b := []byte(s)
+	for i, c := range b {
+		if c >= 'A' && c <= 'Z' {
+			b[i] = c + 32
+		}
+	}
+	return string(b)
 }
 
 func ident(t *rapid.T) string {
@@ -344,8 +355,11 @@ func (g *sheetgen) declaration(last bool) {
 		}
 		return
 	}
-	prop := rapid.SampledFrom([]string{"color", "margin", "font-family", "background", "width", "-webkit-x", "transition"}).Draw(t, "prop")
+	prop := rapid.SampledFrom([]string{"color", "margin", "font-family", "background", "width", "-webkit-x", "transition",
+		// letters outside ASCII have no other case as far as CSS is concerned (the Kelvin sign is not a k)
+		"École", "wİdth", "Kerning", "größe", "ΑΒγ", "-Ö-x"}).Draw(t, "prop")
 	written := randCase(t, prop)
+	prop = lower(written)
 	hack := rapid.IntRange(0, 9).Draw(t, "iehack") == 0
 	if hack {
 		g.w("*")
@@ -472,9 +486,11 @@ func (g *sheetgen) atRule() {
 	name := kind
 	switch kind {
 	case "unknown-noblock", "unknown-block":
-		name = rapid.SampledFrom([]string{"foo", "x-bar", "tailwind"}).Draw(t, "atname")
+		name = rapid.SampledFrom([]string{"foo", "x-bar", "tailwind", "Αbc", "-Ö-foo", "Keyframes", "medİa", "pÄge"}).Draw(t, "atname")
 	}
-	g.w("@" + randCase(t, name))
+	written := randCase(t, name)
+	name = lower(written)
+	g.w("@" + written)
 	base := strings.TrimPrefix(kind, "-webkit-")
 	comps := g.emitPrelude(g.prelude(base))
 	switch kind {
@@ -678,6 +694,7 @@ func TestProp_WellFormed(t *testing.T) {
 		for i := 0; ; i++ {
 			gt, _, data := p.Next()
 			twin.Step()
+			gen.Extend(data)
 			_ = p.Err() // polled after every call: reading the error state must not disturb the parser
 			if gt == css.ErrorGrammar {
 				if p.HasParseError() || p.Err() != io.EOF {
@@ -833,6 +850,7 @@ func runAny(t fataler, src []byte, inline bool) (units int, begins int, parseErr
 		}
 		gt, tt, data := p.Next()
 		twin.Step()
+		gen.Extend(data)
 		_ = p.Err()
 		if gt == css.ErrorGrammar {
 			if p.HasParseError() {
